@@ -117,11 +117,49 @@ pub struct Ledger {
     /// which property / scenario family a premature destruction is reported under
     pub held_property: &'static str,
     pub held_family: &'static str,
+    /// "ownership mode" of the stream drivers (C05's engine-T scenario): consumers keep, clone, convert, hand over and
+    /// release the handles they are yielded, and every step is checked against this ledger
+    pub own: Option<OwnCfg>,
+    /// harness-maintained: payload address -> (value id, live handles observed at that address)
+    pub addr_live: BTreeMap<usize, (u32, i32)>,
+    /// harness-maintained: value id -> number of streams / listeners that yielded it so far
+    pub delivered: BTreeMap<u32, u32>,
+    /// harness-maintained: ids whose accepting send operation has returned
+    pub sent_done: std::collections::BTreeSet<u32>,
+    /// how many streams / listeners each accepted event is to be delivered to (static listener set)
+    pub expected_deliveries: u32,
+}
+
+/// probabilities are per 1024, drawn after every yielded handle
+#[derive(Clone, Copy, Debug, serde::Serialize, serde::Deserialize, PartialEq, Eq)]
+pub struct OwnCfg {
+    /// clone the handle just yielded (shared kinds)
+    pub clone: u32,
+    /// convert a unique handle into a shared one (zero-copy Uni)
+    pub share: u32,
+    /// hand one of the held handles over to the releaser thread (which drops it there)
+    pub give: u32,
+    /// OgreArc: increment_references(n) + n raw copies
+    pub bulk: u32,
 }
 
 impl Default for Ledger {
     fn default() -> Self {
-        Ledger { ids: BTreeMap::new(), double: 0, garbage: 0, live: BTreeMap::new(), in_flight: BTreeMap::new(), version: BTreeMap::new(), held_property: "C05", held_family: "ledger" }
+        Ledger {
+            ids: BTreeMap::new(),
+            double: 0,
+            garbage: 0,
+            live: BTreeMap::new(),
+            in_flight: BTreeMap::new(),
+            version: BTreeMap::new(),
+            held_property: "C05",
+            held_family: "ledger",
+            own: None,
+            addr_live: BTreeMap::new(),
+            delivered: BTreeMap::new(),
+            sent_done: Default::default(),
+            expected_deliveries: 1,
+        }
     }
 }
 
